@@ -21,6 +21,11 @@ inductive FVal
   | fin (neg : Bool) (m : Nat) (e : Int)
   deriving DecidableEq, Repr
 
+/-- zero is written `fin neg 0 0` -/
+def FVal.canonical : FVal → Prop
+  | .fin _ m e => m = 0 → e = 0
+  | _ => True
+
 /-- the decimal number c · 10^e -/
 def decRat (c : Nat) (e : Int) : Rat :=
   if 0 ≤ e then mkRat ((c * 10 ^ e.toNat : Nat) : Int) 1 else mkRat (c : Int) (10 ^ (-e).toNat)
@@ -57,19 +62,26 @@ def underscoresOk : Option Char → Str → Bool
     if c == '_' then (match prev with | some p => p.isDigit | none => false) && underscoresOk (some c) cs
     else (prev != some '_' || c.isDigit) && underscoresOk (some c) cs
 
+def dropSign : Str → Str
+  | '-' :: r => r
+  | '+' :: r => r
+  | r => r
+
+/-- the decimal numeral read, rounded to the nearest double -/
+def decToFloat : Option PyVal → Option FVal
+  | some (.dec n c e) => some (roundDec n c e)
+  | _ => none
+
 /-- `float(str)`; `none` = ValueError -/
 def pyFloat (s : Str) : Option FVal :=
   let t := strip s
   let neg := t.head? == some '-'
-  let r := match t with | '-' :: r => r | '+' :: r => r | r => r
+  let r := dropSign t
   let low := r.map lowerC
   if low == ['i', 'n', 'f'] || low == ['i', 'n', 'f', 'i', 'n', 'i', 't', 'y'] then some (.inf neg)
   else if low == ['n', 'a', 'n'] then some .nan
   else if !underscoresOk none r then none
-  else
-    match pyDecBody neg (dropUnderscores r) with
-    | some (.dec n c e) => some (roundDec n c e)
-    | _ => none
+  else decToFloat (pyDecBody neg (dropUnderscores r))
 
 /-! ### `repr(float)` -/
 
